@@ -403,6 +403,19 @@ func (w *Writer) writeVersionDirective() {
 	w.WriteLine("#version %s", w.options.LangVersion.String())
 }
 
+// selectedEntryPointIndex returns the index of the entry point being compiled:
+// the one named by Options.EntryPoint, or the first one when no name is given.
+// Every per-entry-point step must use the same choice, otherwise a module with
+// several entry points and no selection gets one `void main()` per entry point.
+func (w *Writer) selectedEntryPointIndex() int {
+	for i := range w.module.EntryPoints {
+		if w.options.EntryPoint == "" || w.module.EntryPoints[i].Name == w.options.EntryPoint {
+			return i
+		}
+	}
+	return -1
+}
+
 // getSelectedEntryPoint returns the entry point being compiled.
 func (w *Writer) getSelectedEntryPoint() *ir.EntryPoint {
 	for i := range w.module.EntryPoints {
@@ -462,7 +475,7 @@ func (w *Writer) registerNames() error {
 	for epIdx, ep := range w.module.EntryPoints {
 		epName := w.namer.call(ep.Name)
 		// The selected EP gets "main" as GLSL name
-		if w.options.EntryPoint == "" || ep.Name == w.options.EntryPoint {
+		if epIdx == w.selectedEntryPointIndex() {
 			w.names[nameKey{kind: nameKeyEntryPoint, handle1: uint32(epIdx)}] = "main"
 			w.entryPointNames[ep.Name] = "main"
 		} else {
@@ -609,7 +622,7 @@ func (w *Writer) scanTextureSamplerPairs() {
 	// Scan entry point functions (stored inline, not in Functions[]).
 	for i := range w.module.EntryPoints {
 		ep := &w.module.EntryPoints[i]
-		if w.options.EntryPoint != "" && ep.Name != w.options.EntryPoint {
+		if i != w.selectedEntryPointIndex() {
 			continue
 		}
 		w.scanFunctionForPairs(&ep.Function)
@@ -1955,7 +1968,7 @@ func (w *Writer) writeFunction(handle ir.FunctionHandle, fn *ir.Function) error 
 func (w *Writer) writeEntryPoints() error {
 	for epIdx, ep := range w.module.EntryPoints {
 		// Skip if not the selected entry point
-		if w.options.EntryPoint != "" && ep.Name != w.options.EntryPoint {
+		if epIdx != w.selectedEntryPointIndex() {
 			continue
 		}
 
